@@ -279,6 +279,29 @@ func (s *vfSim) onHook(a *Association, side int, ev int, c *chunkPayloadData) {
 				vfCheckInvariants(a, side, s.res, ev)
 			}
 		}
+		if ev == vfEvTimerEnd {
+			// Lock order: the association calls start/stop on its timers under a.lock, so a timer must never call the
+			// association (which takes a.lock) with its own mutex held. Here a.lock is held inside a timer's
+			// observer call: every timer mutex must be free (others hold one only for a few instructions).
+			for name, tm := range map[string]*rtxTimer{"T1-init": a.t1Init, "T1-cookie": a.t1Cookie, "T2-shutdown": a.t2Shutdown, "T3-rtx": a.t3RTX, "reconfig": a.tReconfig} {
+				if tm == nil {
+					continue
+				}
+				free := false
+				for i := 0; i < 2000 && !free; i++ {
+					if tm.mutex.TryLock() {
+						tm.mutex.Unlock() //nolint:staticcheck
+						free = true
+					} else {
+						runtime.Gosched()
+					}
+				}
+				s.res.count("c20_timer_lock_order_checked", 1)
+				if !free {
+					s.res.violate("C20", "lock-order/timer-mutex-held-in-callback", "side %d: the %s timer mutex stays locked while a retransmission timer's observer runs under the association lock: the timer calls the association with its own mutex held, and the association calls start/stop on its timers under its lock (lock-order inversion, deadlock when the two meet)", side, name)
+				}
+			}
+		}
 		if ev == vfEvGatherEnd {
 			s.mu.Lock()
 			s.gatherAdmits[side] = 0
